@@ -119,7 +119,9 @@ fn b64(bytes: &[u8]) -> String {
   base64::encode(bytes)
 }
 
-const MALFORMED: [&str; 48] = [
+const MALFORMED: [&str; 50] = [
+  "add_b64_damaged",
+  "add_b64_damaged",
   "tck_odd_input_shape",
   "tck_number_with_nul",
   "add_b64_other_spelling",
@@ -547,6 +549,31 @@ fn build_request(s: &Setup, r: &Value) -> Built {
             op: Op::MaybeAdd(m.to_string()),
             label: label.clone(),
           }
+        }
+        // a good base64 text (whole, or its first 0..47 characters) damaged in transit or in the client: one to three
+        // characters outside the alphabet - ASCII or multi-byte - put in or over the characters at a seeded position
+        // (biased to the first and the last 24 bytes); base64 never accepts a byte outside its alphabet, so the
+        // request must be refused and change nothing
+        "add_b64_damaged" => {
+          let mut g = Rng::new(pu64(r, "g") ^ 0xb64d);
+          let good = b64(xml(m).as_bytes());
+          let base: String = if g.chance(1, 2) { good.chars().take(g.below(48) as usize).collect() } else { good };
+          let chars: Vec<char> = base.chars().collect();
+          let at = match g.index(3) {
+            0 => g.below(chars.len() as u64 + 1) as usize,
+            1 => (g.below(25) as usize).min(chars.len()),
+            _ => chars.len() - (g.below(25) as usize).min(chars.len()),
+          };
+          const DAMAGE: [&str; 14] = ["\u{e9}", "\u{17c}", "\u{4e2d}", "\u{6587}\u{5b57}", "\u{1F600}", "\u{85}", "\u{2028}", "!", " ", "\n", "\u{0}", "%", "\u{4e2d}\u{e9}\u{1F600}", "\u{7f}"];
+          let damage = *g.pick(&DAMAGE);
+          let over = if g.chance(1, 2) { 0 } else { (1 + g.index(3)).min(chars.len() - at) };
+          let mut content: String = chars[..at].iter().collect();
+          content.push_str(damage);
+          if g.chance(1, 3) {
+            content.push_str(*g.pick(&DAMAGE));
+          }
+          content.extend(chars[at + over..].iter());
+          raw("POST", if pu64(r, "n") % 3 == 0 { "/definitions/replace" } else { "/definitions/add" }, js, json!({"content": content}).to_string().into_bytes(), true)
         }
         // base64 texts of every length from 1 to 9 characters, padded and not
         "add_b64_short_text" => {
